@@ -1,0 +1,219 @@
+//go:build verif
+
+// Contracts for the deductive checks (comment-only). Properties: C12 (relative path resolution), C01 (loading is total).
+
+package paths
+
+//@ spec slash(c int) bool = c == '\\' || c == '/'
+//@ spec letter(c int) bool = ('a' <= c && c <= 'z') || ('A' <= c && c <= 'Z')
+//@ spec winDrive(p string) bool = len(p) >= 2 && sat(p, 1) == ':' && letter(sat(p, 0))
+//@ spec uncHead(p string) bool = len(p) >= 5 && slash(sat(p, 0)) && slash(sat(p, 1)) && !slash(sat(p, 2)) && sat(p, 2) != '.'
+
+// UNC volume: \\server\share ; s = position of the separator after the server name, e = end of the share name.
+//@ spec uncVol(p string, s int, e int) bool = uncHead(p) && 3 <= s && s + 1 < e && e <= len(p) && (forall j int :: 3 <= j && j < s ==> !slash(sat(p, j))) && slash(sat(p, s)) && !slash(sat(p, s + 1)) && sat(p, s + 1) != '.' && (forall j int :: s + 1 <= j && j < e ==> !slash(sat(p, j))) && (e == len(p) || slash(sat(p, e)))
+
+//@ spec uncAbs(p string) bool = exists s int, e int :: uncVol(p, s, e) && e < len(p)
+
+//@ func isSlash
+//@   nopanic[C01,C12]
+//@   ensures[C12] result <==> slash(c)
+
+//@ func volumeNameLen
+//@   nopanic[C01,C12]
+//@   ensures[C01,C12] 0 <= result && result <= len(path)
+//@   ensures[C12] winDrive(path) ==> result == 2
+//@   ensures[C12] result == 2 ==> winDrive(path)
+//@   ensures[C12] result != 0 && result != 2 ==> uncHead(path) && result >= 5
+//@   ensures[C12] result != 0 && result != 2 && result < len(path) ==> slash(sat(path, result))
+//@   ensures[C12] !winDrive(path) && !uncHead(path) ==> result == 0
+//@   ensures[C12] forall s int, e int :: uncVol(path, s, e) ==> result == e
+//@   loop 1
+//@     invariant[C01,C12] 3 <= n && n <= l - 1 && l == len(path) && l >= 5
+//@     invariant[C12] forall j int :: 3 <= j && j < n ==> !slash(sat(path, j))
+//@     invariant[C12] uncHead(path) && !winDrive(path)
+//@     decreases[C01] l - n
+//@   loop 2
+//@     invariant[C01,C12] 4 <= n && n <= l && l == len(path) && l >= 5
+//@     invariant[C12] n >= 5 || !slash(sat(path, n))
+//@     invariant[C12] exists s int :: 3 <= s && s + 1 <= n && (forall j int :: 3 <= j && j < s ==> !slash(sat(path, j))) && slash(sat(path, s)) && !slash(sat(path, s + 1)) && sat(path, s + 1) != '.' && (forall j int :: s + 1 <= j && j < n ==> !slash(sat(path, j)))
+//@     invariant[C12] uncHead(path) && !winDrive(path)
+//@     decreases[C01] l - n
+
+//@ func isWindowsAbs
+//@   nopanic[C01,C12]
+//@   ensures[C12] len(path) >= 3 && winDrive(path) && slash(sat(path, 2)) ==> b
+//@   ensures[C12] b ==> (winDrive(path) && len(path) >= 3 && slash(sat(path, 2))) || uncHead(path)
+//@   ensures[C12] b ==> len(path) >= 3
+//@   ensures[C12] uncAbs(path) ==> b
+
+// `~` expansion. filepath.Join is variadic and has no model in the engine (its result is an arbitrary string),
+// so "result == Join(home, p[1:])" cannot be stated; the frame half (no leading ~ ==> untouched) is.
+//@ func ExpandUser
+//@   nopanic[C01,C12]
+//@   ensures[C12] !hasprefix(p, "~") ==> result == p
+//@   ensures[C12] p == "" ==> result == ""
+//@? ensures[C12] hasprefix(p, "~") ==> result == p || result == pathjoin(home, p[1:])   // engine: no model of filepath.Join / os.UserHomeDir result not nameable
+
+//@ spec remotePrefix(s string) bool = hasprefix(s, "https://") || hasprefix(s, "http://") || hasprefix(s, "git://") || hasprefix(s, "ssh://") || hasprefix(s, "github.com/") || hasprefix(s, "git@")
+
+//@ func isRemoteContext
+//@   nopanic[C01,C12]
+//@   ensures[C12] result <==> remotePrefix(maybeURL)
+//@   loop 1
+//@     invariant[C12] -1 <= rangeindex && rangeindex <= 5
+//@     invariant[C12] rangeindex >= 0 ==> !hasprefix(maybeURL, "https://")
+//@     invariant[C12] rangeindex >= 1 ==> !hasprefix(maybeURL, "http://")
+//@     invariant[C12] rangeindex >= 2 ==> !hasprefix(maybeURL, "git://")
+//@     invariant[C12] rangeindex >= 3 ==> !hasprefix(maybeURL, "ssh://")
+//@     invariant[C12] rangeindex >= 4 ==> !hasprefix(maybeURL, "github.com/")
+//@     invariant[C12] rangeindex >= 5 ==> !hasprefix(maybeURL, "git@")
+//@     decreases[C01] 5 - rangeindex
+
+//@ spec isAbs(s string) bool = ext_path_filepath_IsAbs_0(s)
+
+//@ func (*relativePathsResolver).absPath
+//@   nopanic[C01,C12]
+//@   assigns below(value)
+//@   ensures[C12] isStr(value) ==> err == nil && isStr(result)
+//@   ensures[C12] isStr(value) && !hasprefix(asStr(value), "~") && isAbs(asStr(value)) ==> result == value
+//@   ensures[C12] isStr(value) && asStr(value) == "" ==> asStr(result) == ""
+//@   ensures[C01,C12] !isStr(value) && !isList(value) ==> err != nil && result == nil
+//@   ensures[C12] isList(value) && err == nil ==> result == value
+//@   ensures[C01] err == nil ==> wf(result)
+//@   ensures[C01] (err == nil) != (result == nil)
+// Inactive (engine: filepath.Join is variadic and has no model, its result is an arbitrary string; IsAbs(Join(a,b)) for absolute a is unavailable):
+//@? ensures[C12] isStr(value) && !hasprefix(asStr(value), "~") && !isAbs(asStr(value)) && asStr(value) != "" ==> asStr(result) == pathjoin(r.workingDir, asStr(value))
+//@? ensures[C12] isStr(value) && asStr(value) != "" && isAbs(r.workingDir) ==> isAbs(asStr(result))            // "every local path attribute is absolute"
+// K6 idempotence absPath(absPath(x)) == absPath(x): follows from the inactive clause above ("result is absolute") and the active
+// "absolute ==> unchanged" clause; for an already absolute x without leading ~ it is the active clause alone.
+//@   ensures[C12] isList(value) && err == nil ==> forall i int :: 0 <= i && i < len(asList(value)) && old(isStr(asList(value)[i])) && !hasprefix(old(asStr(asList(value)[i])), "~") && isAbs(old(asStr(asList(value)[i]))) ==> asList(value)[i] == old(asList(value)[i])
+//@   ensures[C01,C12] isList(value) && err == nil ==> forall i int :: 0 <= i && i < len(asList(value)) ==> old(isStr(asList(value)[i]) || isList(asList(value)[i]))
+//@   ensures[C12] isList(value) && err == nil ==> forall i int :: 0 <= i && i < len(asList(value)) && old(isStr(asList(value)[i])) ==> isStr(asList(value)[i])
+//@   loop 1
+//@     invariant[C01,C12] -1 <= rangeindex && rangeindex < len(v)
+//@     invariant[C12] forall j int :: rangeindex < j && j < len(v) ==> v[j] == old(v[j])
+//@     invariant[C12] forall j int :: 0 <= j && j <= rangeindex && old(isStr(v[j])) && !hasprefix(old(asStr(v[j])), "~") && isAbs(old(asStr(v[j]))) ==> v[j] == old(v[j])
+//@     invariant[C01,C12] forall j int :: 0 <= j && j <= rangeindex ==> old(isStr(v[j]) || isList(v[j]))
+//@     invariant[C12] forall j int :: 0 <= j && j <= rangeindex && old(isStr(v[j])) ==> isStr(v[j])
+//@     decreases[C01] len(v) - rangeindex
+
+// `pure`: the RemoteResource callbacks (ResourceLoader.Accept) are assumed not to write pre-existing memory (documented assumption).
+//@ func (*relativePathsResolver).isRemoteResource
+//@   nopanic[C01,C12]
+//@   pure
+//@   requires forall i int :: 0 <= i && i < len(r.remotes) ==> r.remotes[i] != nil
+//@   loop 1
+//@     invariant[C01] -1 <= rangeindex && rangeindex < len(r.remotes)
+//@     invariant[C01] r.remotes == old(r.remotes)
+//@     invariant[C01] forall i int :: 0 <= i && i < len(r.remotes) ==> r.remotes[i] == old(r.remotes[i])
+//@     decreases[C01] len(r.remotes) - rangeindex
+
+//@ spec winDriveAbs(p string) bool = len(p) >= 3 && winDrive(p) && slash(sat(p, 2))
+
+// Mount sources, secret/config files, bind devices: Unix-absolute, Windows-absolute and host-absolute values are left as written.
+//@ func (*relativePathsResolver).maybeUnixPath
+//@   nopanic[C01,C12]
+//@   requires isStr(a)
+//@   ensures[C01,C12] err == nil && isStr(result)
+//@   ensures[C12] !hasprefix(asStr(a), "~") && ext_path_IsAbs_0(asStr(a)) ==> result == a
+//@   ensures[C12] !hasprefix(asStr(a), "~") && winDriveAbs(asStr(a)) ==> result == a
+//@   ensures[C12] !hasprefix(asStr(a), "~") && uncAbs(asStr(a)) ==> result == a
+//@   ensures[C12] !hasprefix(asStr(a), "~") && isAbs(asStr(a)) ==> result == a
+//@   ensures[C01] err == nil ==> wf(result)
+
+// Build contexts: URL-like (any scheme://) and remote (git, http(s), ssh) values are left as written.
+//@ func (*relativePathsResolver).absContextPath
+//@   nopanic[C01,C12]
+//@   ensures[C12] isStr(value) ==> err == nil && isStr(result)
+//@   ensures[C12] isStr(value) && contains(asStr(value), "://") ==> result == value
+//@   ensures[C12] isStr(value) && remotePrefix(asStr(value)) ==> result == value
+//@? ensures[C12] isStr(value) && !hasprefix(asStr(value), "~") && isAbs(asStr(value)) ==> result == value   // engine: ext_ symbol unknown in callers
+//@   ensures[C12] isStr(value) && asStr(value) == "" ==> asStr(result) == ""
+//@   ensures[C01] isStr(value) && err == nil ==> wf(result)
+
+//@ func (*relativePathsResolver).absExtendsPath
+//@   nopanic[C01,C12]
+//@   requires forall i int :: 0 <= i && i < len(r.remotes) ==> r.remotes[i] != nil
+//@   ensures[C12] isStr(value) ==> err == nil && isStr(result)
+//@? ensures[C12] isStr(value) && !hasprefix(asStr(value), "~") && isAbs(asStr(value)) ==> result == value   // engine: ext_ symbol unknown in callers
+//@? ensures[C12] isStr(value) && accepted(r.remotes, asStr(value)) ==> result == value   // engine: result of a call through a function value is not nameable ("loader-recognised remote references are left as written")
+//@   ensures[C01] isStr(value) && err == nil ==> wf(result)
+
+//@ spec isBind(m map[string]any) bool = has(m, "type") && m["type"] == "bind"
+
+// Service volumes: only `type: bind` sources are touched; named-volume (and any other) mounts are returned identical.
+//@ func (*relativePathsResolver).absVolumeMount
+//@   nopanic[C01,C12]
+//@   ensures[C12] !isMap(a) ==> err == nil && result == a
+//@   ensures[C12] isMap(a) && !old(isBind(asMap(a))) ==> err == nil && result == a
+//@   ensures[C12] isMap(a) && !old(isBind(asMap(a))) ==> forall k string :: (has(asMap(a), k) <==> old(has(asMap(a), k))) && asMap(a)[k] == old(asMap(a)[k])
+//@   ensures[C01,C12] isMap(a) && old(isBind(asMap(a))) && !old(has(asMap(a), "source")) ==> err != nil
+//@   ensures[C12] isMap(a) && err == nil ==> result == a
+//@   ensures[C12] isMap(a) ==> forall k string :: k != "source" ==> (has(asMap(a), k) <==> old(has(asMap(a), k))) && asMap(a)[k] == old(asMap(a)[k])
+//@   ensures[C12] isMap(a) && old(isBind(asMap(a))) && err == nil ==> isStr(asMap(a)["source"])
+//@   ensures[C12] isMap(a) && old(isBind(asMap(a))) && err == nil && old(isStr(asMap(a)["source"])) && !hasprefix(old(asStr(asMap(a)["source"])), "~") && (winDriveAbs(old(asStr(asMap(a)["source"]))) || uncAbs(old(asStr(asMap(a)["source"])))) ==> asMap(a)["source"] == old(asMap(a)["source"])
+//@   ensures[C01] err == nil ==> wf(result)
+
+//@ spec isLocalBind(v map[string]any) bool = has(v, "driver") && v["driver"] == "local" && has(v, "driver_opts") && isMap(v["driver_opts"]) && has(asMap(v["driver_opts"]), "o") && asMap(v["driver_opts"])["o"] == "bind" && has(asMap(v["driver_opts"]), "device")
+
+// Top-level volumes: only the `device` of a `driver: local` volume with `o: bind` is a path; every other driver option
+// (nfs/tmpfs/cifs devices, other drivers) and every other volume attribute is returned identical.
+//@ func (*relativePathsResolver).volumeDriverOpts
+//@   nopanic[C01,C12]
+//@   ensures[C12] a == nil ==> err == nil && result == nil
+//@   ensures[C12] isMap(a) && err == nil ==> result == a
+//@   ensures[C12] isMap(a) ==> forall k string :: k != "device" ==> (has(asMap(a), k) <==> old(has(asMap(a), k))) && asMap(a)[k] == old(asMap(a)[k])
+//@   ensures[C12] isMap(a) && old(isMap(asMap(a)["driver_opts"])) && old(asMap(a)["driver_opts"]) != a ==> forall k string :: (has(asMap(a), k) <==> old(has(asMap(a), k))) && asMap(a)[k] == old(asMap(a)[k])   // sep: the volume is not its own driver_opts
+//@   ensures[C12] isMap(a) && !old(isLocalBind(asMap(a))) ==> err == nil
+//@   ensures[C12] isMap(a) && !old(isLocalBind(asMap(a))) && has(asMap(a), "driver_opts") && isMap(asMap(a)["driver_opts"]) ==> forall k string :: (has(asMap(asMap(a)["driver_opts"]), k) <==> old(has(asMap(asMap(a)["driver_opts"]), k))) && asMap(asMap(a)["driver_opts"])[k] == old(asMap(asMap(a)["driver_opts"])[k])
+//@   ensures[C12] isMap(a) && has(asMap(a), "driver_opts") && isMap(asMap(a)["driver_opts"]) ==> forall k string :: k != "device" ==> (has(asMap(asMap(a)["driver_opts"]), k) <==> old(has(asMap(asMap(a)["driver_opts"]), k))) && asMap(asMap(a)["driver_opts"])[k] == old(asMap(asMap(a)["driver_opts"])[k])
+//@   ensures[C12] isMap(a) && old(isLocalBind(asMap(a))) && err == nil ==> isStr(asMap(asMap(a)["driver_opts"])["device"])
+//@   ensures[C12] isMap(a) && old(isLocalBind(asMap(a))) && old(isStr(asMap(asMap(a)["driver_opts"])["device"])) && !hasprefix(old(asStr(asMap(asMap(a)["driver_opts"])["device"])), "~") && (winDriveAbs(old(asStr(asMap(asMap(a)["driver_opts"])["device"]))) || uncAbs(old(asStr(asMap(asMap(a)["driver_opts"])["device"])))) ==> asMap(asMap(a)["driver_opts"])["device"] == old(asMap(asMap(a)["driver_opts"])["device"])
+//@   ensures[C01] err == nil && (a == nil || isMap(a)) ==> wf(result)
+
+// Watch paths: resolved like env_file/label_file, then symlinks are rewritten (file-system state: not decided).
+//@ func (*relativePathsResolver).absSymbolicLink
+//@   nopanic[C01,C12]
+//@   ensures[C01,C12] !isStr(value) && !isList(value) ==> err != nil && result == nil
+//@   ensures[C12] isStr(value) && err == nil ==> isStr(result)
+//@   ensures[C12] isList(value) && err == nil ==> result == value
+//@   ensures[C01] err == nil ==> wf(result)
+
+// K5: the resolver table holds exactly the rows the property lists (plus the extends/include bookkeeping rows).
+//@ spec resolverKey(k string) bool = k == "services.*.build.context" || k == "services.*.build.additional_contexts.*" || k == "services.*.env_file.*.path" || k == "services.*.label_file.*" || k == "services.*.extends.file" || k == "services.*.develop.watch.*.path" || k == "services.*.volumes.*" || k == "configs.*.file" || k == "secrets.*.file" || k == "include.path" || k == "include.project_directory" || k == "include.env_file" || k == "volumes.*"
+
+//@ func (*relativePathsResolver).resolveRelativePaths
+//@   nopanic[C01,C12]
+//@   assigns below(value)
+//@   requires[C12] forall k string :: has(r.resolvers, k) <==> resolverKey(k)
+//@   requires[C01] forall k string :: has(r.resolvers, k) ==> r.resolvers[k] != nil
+// K5 rows (row -> resolver). Inactive: a bound-method closure (r.maybeUnixPath, ...) stored in a struct-field map has no identity in the
+// SMT model (fresh non-zero id), so neither the rows nor the unique-match dispatch of `resolver(value)` can be stated or used.
+//@? requires[C12] r.resolvers["services.*.build.context"] == fn("(*relativePathsResolver).absContextPath") && r.resolvers["services.*.build.additional_contexts.*"] == fn("(*relativePathsResolver).absContextPath")
+//@? requires[C12] r.resolvers["services.*.env_file.*.path"] == fn("(*relativePathsResolver).absPath") && r.resolvers["services.*.label_file.*"] == fn("(*relativePathsResolver).absPath")
+//@? requires[C12] r.resolvers["services.*.develop.watch.*.path"] == fn("(*relativePathsResolver).absSymbolicLink")
+//@? requires[C12] r.resolvers["services.*.volumes.*"] == fn("(*relativePathsResolver).absVolumeMount") && r.resolvers["volumes.*"] == fn("(*relativePathsResolver).volumeDriverOpts")
+//@? requires[C12] r.resolvers["configs.*.file"] == fn("(*relativePathsResolver).maybeUnixPath") && r.resolvers["secrets.*.file"] == fn("(*relativePathsResolver).maybeUnixPath")
+//@? requires[C12] r.resolvers["services.*.extends.file"] == fn("(*relativePathsResolver).absExtendsPath")
+//@   ensures[C01] err == nil ==> wf(result)
+//@   ensures[C01,C12] forall k string :: (has(r.resolvers, k) <==> old(has(r.resolvers, k))) && r.resolvers[k] == old(r.resolvers[k])
+//@   ensures[C12] (forall k string :: resolverKey(k) ==> !pathmatch(p, k)) && !isMap(value) && !isList(value) ==> err == nil && result == value
+//@   ensures[C12] (forall k string :: resolverKey(k) ==> !pathmatch(p, k)) && err == nil ==> result == value
+//@? ensures[C12] (forall k string :: resolverKey(k) ==> !pathmatch(p, k)) && isMap(value) && err == nil ==> forall k string :: has(asMap(value), k) <==> old(has(asMap(value), k))   // engine: key set of the parent map not retained across the recursive call
+//@   loop 1
+//@     invariant[C12] forall k string :: seen(k) ==> !pathmatch(p, k)
+//@   loop 2
+//@?   invariant[C12] forall k string :: has(v, k) <==> old(has(v, k))
+//@     invariant[C01,C12] forall k string :: (has(r.resolvers, k) <==> old(has(r.resolvers, k))) && r.resolvers[k] == old(r.resolvers[k])
+//@   loop 3
+//@     invariant[C01,C12] forall k string :: (has(r.resolvers, k) <==> old(has(r.resolvers, k))) && r.resolvers[k] == old(r.resolvers[k])
+//@     invariant[C01] -1 <= rangeindex && rangeindex < len(v)
+//@     decreases[C01] len(v) - rangeindex
+
+// Entry point. The base directory is the caller's (per-origin base: project dir / included project dir / extended file's dir).
+// "Every resolved path is absolute" additionally needs: base is absolute (the cli package supplies one; loader does not check)
+// and IsAbs(Join(a,b)) for absolute a -- see the inactive clauses of absPath.
+//@ func ResolveRelativePaths
+//@   nopanic[C01,C12]
+//@   requires project != nil
+//@   requires forall i int :: 0 <= i && i < len(remotes) ==> remotes[i] != nil
